@@ -16418,12 +16418,28 @@ let run_cli o now bs =
   run_cli_lines o now { tbl = []; cnt = (counters_new now o.update_s) }
     (text_lines bs) []
 
-(** val run_tcp_table : opts -> z -> table -> bytes list -> table res **)
+type conn_event =
+| Refused
+| Delivered of bytes * bool
 
-let rec run_tcp_table o now t = function
-| [] -> Ok t
-| bs :: rest ->
-  bind (read_lines o now t bs) (fun t' -> run_tcp_table o now t' rest)
+(** val pause_after : conn_event -> n **)
+
+let pause_after = function
+| Refused -> Npos (XI (XO XH))
+| Delivered (_, clean) -> if clean then N0 else Npos (XI (XO XH))
+
+(** val run_tcp_loop :
+    opts -> z -> table -> conn_event list -> (table * n list) res **)
+
+let rec run_tcp_loop o now t = function
+| [] -> Ok (t, [])
+| e :: rest ->
+  bind
+    (match e with
+     | Refused -> Ok t
+     | Delivered (bs, _) -> read_lines o now t bs) (fun t' ->
+    bind (run_tcp_loop o now t' rest) (fun pat ->
+      let (t2, ps) = pat in Ok (t2, ((pause_after e) :: ps))))
 
 (** val run_c : opts -> bytes -> bytes * bytes **)
 
@@ -16460,24 +16476,61 @@ let run_c o body =
              true, false, false, false, true, true, false)),
              EmptyString))))))))))), [])))
 
+(** val num_of : bytes -> n -> n **)
+
+let rec num_of l acc =
+  match l with
+  | [] -> acc
+  | c :: t ->
+    if (&&) (N.leb (Npos (XO (XO (XO (XO (XI XH)))))) c)
+         (N.leb c (Npos (XI (XO (XO (XI (XI XH)))))))
+    then num_of t
+           (N.add (N.mul (Npos (XO (XI (XO XH)))) acc)
+             (N.sub c (Npos (XO (XO (XO (XO (XI XH))))))))
+    else acc
+
+(** val tcp_event : bytes -> conn_event **)
+
+let tcp_event s =
+  match split_on (Npos (XO (XI (XO (XI (XI XH)))))) s [] with
+  | [] -> Delivered ([], true)
+  | ty :: l ->
+    (match l with
+     | [] -> Delivered ([], true)
+     | rest :: _ ->
+       let k = num_of ty N0 in
+       if N.eqb k (Npos (XI XH))
+       then Refused
+       else Delivered ((seg_bytes rest),
+              (negb
+                ((||) (N.eqb k (Npos (XO XH))) (N.eqb k (Npos (XI (XI XH))))))))
+
 (** val run_t : opts -> bytes -> bytes * bytes **)
 
 let run_t o body =
-  let blobs =
-    map (fun s ->
-      match split_on (Npos (XO (XI (XO (XI (XI XH)))))) s [] with
-      | [] -> []
-      | _ :: l -> (match l with
-                   | [] -> []
-                   | rest :: _ -> seg_bytes rest))
+  let evs =
+    map tcp_event
       (filter (fun s -> negb (Nat.eqb (length s) O))
         (split (Npos (XI (XI (XO (XI (XI XH)))))) body))
   in
-  (match run_tcp_table o Z0 [] blobs with
-   | Ok t ->
+  (match run_tcp_loop o Z0 [] evs with
+   | Ok a ->
+     let (t, ps) = a in
      ((str (String ((Ascii (true, true, true, true, false, true, true,
         false)), (String ((Ascii (true, true, false, true, false, true, true,
-        false)), EmptyString))))), (dump_table Z0 t))
+        false)), EmptyString))))),
+     (app
+       (str (String ((Ascii (false, false, false, false, true, true, true,
+         false)), (String ((Ascii (true, false, false, false, false, true,
+         true, false)), (String ((Ascii (true, false, true, false, true,
+         true, true, false)), (String ((Ascii (true, true, false, false,
+         true, true, true, false)), (String ((Ascii (true, false, true,
+         false, false, true, true, false)), (String ((Ascii (true, true,
+         false, false, true, true, true, false)), (String ((Ascii (true,
+         false, true, true, true, true, false, false)),
+         EmptyString)))))))))))))))
+       (app (join ((Npos (XI (XI (XO (XI (XI XH)))))) :: []) (map dec ps))
+         (app ((Npos (XI (XI (XO (XO (XO XH)))))) :: []) (dump_table Z0 t)))))
    | Panic _ ->
      ((str (String ((Ascii (false, false, false, false, true, true, true,
         false)), (String ((Ascii (true, false, false, false, false, true,
